@@ -362,6 +362,41 @@ class CodecMonitor:
             self.ctx.count("failed_encode:" + type(e).__name__)
         self.ctx.count("failed_encodes")
 
+    def failed_decode(self, case, t, v):
+        """Hostile step: decodes that fail or fall back on the (process-wide)
+        serializer - a type with an unknown name nested below known
+        containers, truncated bytes, a corrupted count.  Only counted; the
+        following valid round trips are judged as usual."""
+        rnd = case.rnd
+        tn = reftypes.show(t)
+        try:
+            good = refcodec.encode(v, t)
+        except Exception:
+            return
+        k = rnd.randrange(4)
+        if k == 0:
+            typ = "mapping<string,sequence<tuple<%s,myToolRecord>>>" % tn
+            raw = refcodec._u64(1) + refcodec._u64(1) + b"k" + \
+                refcodec._u64(1) + good + b"junk"
+        elif k == 1:
+            typ = "sequence<sequence<%s>>" % tn
+            raw = refcodec._u64(1) + refcodec._u64(2) + good  # 2nd missing
+        elif k == 2:
+            typ = "tuple<%s,variant<string,uint8_t>>" % tn
+            raw = good + refcodec._u64(7)  # variant index out of range
+        else:
+            typ = "sequence<tuple<string,%s>>" % tn
+            raw = refcodec._u64(1) + refcodec._u64(3) + b"\xff\xfe\xfd" + \
+                good  # invalid UTF-8
+        try:
+            self.pydec(raw, typ)
+            self.ctx.count("failed_decode:returned")
+        except OpTimeout:
+            raise
+        except Exception as e:
+            self.ctx.count("failed_decode:" + type(e).__name__)
+        self.ctx.count("failed_decodes")
+
     def close(self):
         if self.java_out:
             self.java_out.close()
